@@ -7,7 +7,7 @@ from model import World
 import hist, objs, mechs
 
 LEVEL = "exploration"
-QUICK_RUNS = 2000
+QUICK_RUNS = 1500
 QUICK_BUDGET_S = 95
 THOROUGH_RUNS = 10 ** 7
 RULE = ("two run classes. corrupt (storage fault at an arbitrary instant): a seeded object workload during which object files, lock files, token.object and softhsm2.conf are corrupted on the simulated disk "
